@@ -232,13 +232,13 @@ impl<R: Read + Seek> ReadBox<&mut R> for AvcCBox {
         let num_of_spss = reader.read_u8()? & 0x1F;
         let mut sequence_parameter_sets = Vec::with_capacity(num_of_spss as usize);
         for _ in 0..num_of_spss {
-            let nal_unit = NalUnit::read(reader)?;
+            let nal_unit = NalUnit::read(reader, start + size)?;
             sequence_parameter_sets.push(nal_unit);
         }
         let num_of_ppss = reader.read_u8()?;
         let mut picture_parameter_sets = Vec::with_capacity(num_of_ppss as usize);
         for _ in 0..num_of_ppss {
-            let nal_unit = NalUnit::read(reader)?;
+            let nal_unit = NalUnit::read(reader, start + size)?;
             picture_parameter_sets.push(nal_unit);
         }
 
@@ -296,8 +296,11 @@ impl NalUnit {
         2 + self.bytes.len()
     }
 
-    fn read<R: Read + Seek>(reader: &mut R) -> Result<Self> {
+    fn read<R: Read + Seek>(reader: &mut R, box_end: u64) -> Result<Self> {
         let length = reader.read_u16::<BigEndian>()? as usize;
+        if reader.stream_position()? + length as u64 > box_end {
+            return Err(Error::InvalidData("avcC parameter set overruns the box"));
+        }
         let mut bytes = vec![0u8; length];
         reader.read_exact(&mut bytes)?;
         Ok(NalUnit { bytes })
